@@ -35,12 +35,14 @@ struct Opts {
     dynfn: bool,            // R4
     keep_vis: bool,
     mac_args: Vec<String>,  // macro instantiation arguments
+    macfile: Option<String>, // file holding the macro_rules! definition (the take's file holds the invocation)
     pure_exit: bool,        // R17
     selfty: Option<String>, // replace `Self` by this type in signature/body (for items moved out of their impl)
     nofmt: bool,            // R5 off
     unwrap_default: bool,
     letanchors: Vec<String>, // local names after whose `let` an `after_let NAME K` anchor is emitted
     fieldty: Vec<(String, String)>, // struct take: replace the type of a field (R4 for `dyn Fn` fields)
+    mac_for: Option<(String, String)>, // macro instantiation: use the invocation whose metavariable .0 equals .1
     anchors: Vec<String>,   // callee names after whose enclosing statement an `after_call NAME K` anchor is emitted
     r3calls: Vec<(String, usize)>, // callee -> number of generics R3 added to it (turbofish call sites get that many `_`)
 }
@@ -68,9 +70,11 @@ fn parse_opts(s: &str) -> Opts {
             "keep_vis" => o.keep_vis = true,
             "mac_args" => o.mac_args = list(),
             "pure_exit" => o.pure_exit = true,
+            "macfile" => o.macfile = Some(v.to_string()),
             "selfty" => o.selfty = Some(v.to_string()),
             "nofmt" => o.nofmt = true,
             "anchors" => o.anchors = list(),
+            "mac_for" => o.mac_for = v.split_once(':').map(|(a, b)| (a.to_string(), b.to_string())),
             "fieldty" => o.fieldty = list().iter().filter_map(|x| x.split_once(':').map(|(a, b)| (a.to_string(), b.to_string()))).collect(),
             "letanchors" => o.letanchors = list(),
             "r3calls" => o.r3calls = list().iter().filter_map(|x| x.split_once(':').map(|(a, b)| (a.to_string(), b.parse().unwrap_or(1)))).collect(),
@@ -427,6 +431,13 @@ impl VisitMut for Rw {
                         }
                     }
                 }
+                // R26: String::from(x) -> string_from(x)
+                if path_str(&c.func).as_deref() == Some("String::from") && c.args.len() == 1 {
+                    let a = &c.args[0];
+                    self.bump("R26");
+                    *e = parse_quote!(string_from(#a));
+                    return;
+                }
                 let last = path_last(&c.func);
                 let full = path_str(&c.func);
                 if let (Some(last), Some(full)) = (last, full) {
@@ -572,14 +583,17 @@ impl VisitMut for Rw {
             }
             // R14: (self.f)(a) -> self.f.call(a)
             Expr::Macro(m) => {
-                let name = m.mac.path.to_token_stream().to_string();
-                if name == "format" && !self.o.nofmt {
-                    // R5
+                let name = m.mac.path.segments.last().map(|s| s.ident.to_string()).unwrap_or_default();
+                let is_write = name == "write";
+                if (name == "format" || is_write) && !self.o.nofmt {
+                    // R5 (format!) / R5b (write!(f, ..) -> f.write_str(&<formatted>))
                     let parsed: syn::Result<syn::punctuated::Punctuated<Expr, syn::Token![,]>> =
                         m.mac.parse_body_with(syn::punctuated::Punctuated::parse_terminated);
                     let mut ok = false;
                     let mut replacement: Option<Expr> = None;
                     let mactoks = m.mac.tokens.to_string();
+                    let mut target: Option<Expr> = None;
+                    let parsed = parsed.map(|a| { let mut v: Vec<Expr> = a.into_iter().collect(); if is_write && !v.is_empty() { target = Some(v.remove(0)); } v });
                     if let Ok(args) = parsed {
                         if let Some(Expr::Lit(syn::ExprLit { lit: syn::Lit::Str(s), .. })) = args.first() {
                             if let Some(parts) = split_fmt(&s.value()) {
@@ -602,7 +616,7 @@ impl VisitMut for Rw {
                                 if good && pos == args.len() {
                                     self.bump("R5");
                                     let f = format_ident!("fmt_concat{}", pieces.len());
-                                    replacement = Some(parse_quote!(#f(#(#pieces),*)));
+                                    replacement = Some(match &target { Some(t) => parse_quote!(#t.write_str(&#f(#(#pieces),*))), None => parse_quote!(#f(#(#pieces),*)) });
                                     ok = true;
                                 }
                             }
@@ -708,7 +722,7 @@ fn pretty(ts: TokenStream) -> String {
 // ---------------------------------------------------------------- item lookup
 fn type_str(t: &Type) -> String { t.to_token_stream().to_string().replace(' ', "") }
 
-enum Found { Fn(syn::Signature, syn::Block, syn::Visibility, Vec<Attribute>), Item(Item) }
+enum Found { Fn(syn::Signature, syn::Block, syn::Visibility, Vec<(String, Type)>), Item(Item) }
 
 fn find(items: &[Item], sel: &[&str]) -> Result<Found, String> {
     let head = sel[0].trim();
@@ -719,7 +733,7 @@ fn find(items: &[Item], sel: &[&str]) -> Result<Found, String> {
             Err(format!("module {} not found", words[1]))
         }
         "fn" => {
-            for it in items { if let Item::Fn(f) = it { if f.sig.ident == words[1] { return Ok(Found::Fn(f.sig.clone(), (*f.block).clone(), f.vis.clone(), f.attrs.clone())); } } }
+            for it in items { if let Item::Fn(f) = it { if f.sig.ident == words[1] { return Ok(Found::Fn(f.sig.clone(), (*f.block).clone(), f.vis.clone(), vec![])); } } }
             Err(format!("fn {} not found", words[1]))
         }
         "impl" => {
@@ -741,7 +755,10 @@ fn find(items: &[Item], sel: &[&str]) -> Result<Found, String> {
                         if let ImplItem::Fn(f) = ii {
                             if f.sig.ident == fsel[1] {
                                 if matches!(cfg_of(&f.attrs), CfgDecision::Drop) { continue; }
-                                if seen == nth { return Ok(Found::Fn(f.sig.clone(), f.block.clone(), f.vis.clone(), f.attrs.clone())); }
+                                if seen == nth {
+                                    let assoc: Vec<(String, Type)> = imp.items.iter().filter_map(|x| if let ImplItem::Type(t) = x { Some((t.ident.to_string(), t.ty.clone())) } else { None }).collect();
+                                    return Ok(Found::Fn(f.sig.clone(), f.block.clone(), f.vis.clone(), assoc));
+                                }
                                 seen += 1;
                             }
                         }
@@ -758,7 +775,7 @@ fn find(items: &[Item], sel: &[&str]) -> Result<Found, String> {
                         for ti in &t.items {
                             if let TraitItem::Fn(f) = ti {
                                 if f.sig.ident == fsel[1] {
-                                    if let Some(b) = &f.default { return Ok(Found::Fn(f.sig.clone(), b.clone(), syn::Visibility::Inherited, f.attrs.clone())); }
+                                    if let Some(b) = &f.default { return Ok(Found::Fn(f.sig.clone(), b.clone(), syn::Visibility::Inherited, vec![])); }
                                     return Err(format!("trait fn {} has no default body", fsel[1]));
                                 }
                             }
@@ -829,7 +846,9 @@ fn subst(ts: TokenStream, map: &BTreeMap<String, String>) -> Result<TokenStream,
                             let t: TokenStream = v.parse().map_err(|_| format!("bad macro arg {v}"))?;
                             out.extend(t);
                         } else {
-                            return Err(format!("macro metavariable ${k} has no argument"));
+                            // metavariable of a nested macro_rules!: left as it is
+                            out.extend(std::iter::once(toks[i].clone()));
+                            out.extend(std::iter::once(toks[i + 1].clone()));
                         }
                         i += 2; continue;
                     }
@@ -856,6 +875,63 @@ fn subst(ts: TokenStream, map: &BTreeMap<String, String>) -> Result<TokenStream,
     Ok(out)
 }
 
+// metavariables of the first rule of a macro_rules!, in order, ignoring those inside `$( ... )` repetitions
+fn macro_vars(items: &[Item], name: &str) -> Option<Vec<String>> {
+    for it in items {
+        if let Item::Macro(m) = it {
+            if m.mac.path.is_ident("macro_rules") && m.ident.as_ref().map(|i| i == name).unwrap_or(false) {
+                let toks: Vec<TokenTree> = m.mac.tokens.clone().into_iter().collect();
+                if let Some(TokenTree::Group(g)) = toks.first() {
+                    let pt: Vec<TokenTree> = g.stream().into_iter().collect();
+                    let mut out = vec![]; let mut i = 0;
+                    while i < pt.len() {
+                        if let TokenTree::Punct(p) = &pt[i] { if p.as_char() == '$' {
+                            match pt.get(i + 1) {
+                                Some(TokenTree::Ident(id)) => { out.push(id.to_string()); i += 2; continue; }
+                                Some(TokenTree::Group(_)) => { i += 2; continue; }
+                                _ => {}
+                            }
+                        } }
+                        i += 1;
+                    }
+                    return Some(out);
+                }
+            }
+        }
+    }
+    None
+}
+// arguments of one invocation: top-level comma separated items with leading `#[..]` attributes removed
+fn invocation_args(ts: TokenStream) -> Vec<String> {
+    let mut items: Vec<Vec<TokenTree>> = vec![vec![]];
+    for t in ts { match &t { TokenTree::Punct(p) if p.as_char() == ',' => items.push(vec![]), _ => items.last_mut().unwrap().push(t) } }
+    let mut out = vec![];
+    for it in items {
+        let mut i = 0;
+        while i + 1 < it.len() {
+            if let (TokenTree::Punct(p), TokenTree::Group(g)) = (&it[i], &it[i + 1]) { if p.as_char() == '#' && g.delimiter() == Delimiter::Bracket { i += 2; continue; } }
+            break;
+        }
+        let rest: TokenStream = it[i..].iter().cloned().collect();
+        if !rest.is_empty() { out.push(rest.to_string()); }
+    }
+    out
+}
+fn find_invocation_args(items: &[Item], name: &str, vars: &[String], key: &(String, String)) -> Option<Vec<String>> {
+    for it in items {
+        match it {
+            Item::Macro(m) if m.mac.path.segments.last().map(|s| s.ident == name).unwrap_or(false) && m.ident.is_none() => {
+                let args = invocation_args(m.mac.tokens.clone());
+                if args.len() == vars.len() {
+                    if let Some(pos) = vars.iter().position(|v| *v == key.0) { if args[pos].replace(' ', "") == key.1 { return Some(vars.iter().zip(args.iter()).map(|(v, a)| format!("{v}:{a}")).collect()); } }
+                }
+            }
+            Item::Mod(m) => { if let Some((_, inner)) = &m.content { if let Some(r) = find_invocation_args(inner, name, vars, key) { return Some(r); } } }
+            _ => {}
+        }
+    }
+    None
+}
 // list macro invocations: `invocations NAME` -> prints each invocation's raw argument token text
 fn list_invocations(items: &[Item], name: &str, out: &mut Vec<String>) {
     for it in items {
@@ -892,6 +968,8 @@ impl VisitMut for IdentRename {
 struct CratePaths { n: usize }
 impl VisitMut for CratePaths {
     fn visit_path_mut(&mut self, p: &mut syn::Path) {
+        // `::std::..`, `::fancy_regex::..` (absolute paths used inside macro_rules bodies) resolve against the shim modules
+        if p.leading_colon.is_some() { p.leading_colon = None; self.n += 1; }
         if p.leading_colon.is_none() && p.segments.len() >= 2 && (p.segments[0].ident == "crate" || p.segments[0].ident == "super") {
             let mut segs: Vec<syn::PathSegment> = p.segments.iter().cloned().collect();
             segs.remove(0);
@@ -1015,6 +1093,28 @@ impl VisitMut for SelfRename {
         m.tokens = toks;
     }
 }
+// R25: `Self::Assoc` inside a trait impl -> the type the impl binds it to
+struct AssocRepl<'a> { assoc: &'a [(String, Type)], n: usize }
+impl<'a> VisitMut for AssocRepl<'a> {
+    fn visit_type_mut(&mut self, t: &mut Type) {
+        if let Type::Path(p) = t {
+            if p.qself.is_none() && p.path.segments.len() == 2 && p.path.segments[0].ident == "Self" {
+                if let Some((_, ty)) = self.assoc.iter().find(|(n, _)| p.path.segments[1].ident == n) { *t = ty.clone(); self.n += 1; return; }
+            }
+        }
+        visit_mut::visit_type_mut(self, t);
+    }
+    fn visit_path_mut(&mut self, p: &mut syn::Path) {
+        if p.segments.len() >= 3 && p.segments[0].ident == "Self" {
+            if let Some((_, Type::Path(tp))) = self.assoc.iter().find(|(n, _)| p.segments[1].ident == n) {
+                let mut segs = tp.path.segments.clone();
+                for sgm in p.segments.iter().skip(2) { segs.push(sgm.clone()); }
+                p.segments = segs; self.n += 1;
+            }
+        }
+        visit_mut::visit_path_mut(self, p);
+    }
+}
 struct SelfRepl { ty: Type }
 impl VisitMut for SelfRepl {
     fn visit_type_mut(&mut self, t: &mut Type) {
@@ -1033,10 +1133,15 @@ impl VisitMut for SelfRepl {
     }
 }
 
-fn emit_fn(key: &str, file: &str, mut sig: syn::Signature, mut block: syn::Block, vis: syn::Visibility, o: &Opts) {
+fn emit_fn(key: &str, file: &str, mut sig: syn::Signature, mut block: syn::Block, vis: syn::Visibility, o: &Opts, assoc: &[(String, Type)]) {
     let start = sig.fn_token.span.start().line;
     let end = block.brace_token.span.close().end().line;
     let mut rw = Rw { o: o.clone(), loop_no: 0, closure_no: 0, closure_depth: 0, counts: BTreeMap::new(), errors: vec![], removed_prints: 0, nested_fns: vec![], closure_params: vec![], closure_label: None, closure_counts: BTreeMap::new(), closure_names: vec![] };
+    if !assoc.is_empty() {
+        let mut ar = AssocRepl { assoc, n: 0 };
+        ar.visit_signature_mut(&mut sig);
+        ar.visit_block_mut(&mut block);
+    }
     if let Some(st) = &o.selfty {
         let ty: Type = syn::parse_str(st).expect("selfty");
         let mut sr = SelfRepl { ty };
@@ -1290,14 +1395,25 @@ fn main() {
             continue;
         }
         let (items_owned, sel_rest): (Option<Vec<Item>>, &[&str]) = if w0[0] == "macrofn" {
-            match expand_macro_rules(&f.items, w0[1], &o.mac_args) {
+            // definition file (macfile) may differ from the invocation file
+            let def_items: Vec<Item> = match &o.macfile {
+                Some(mf) => { let pth = format!("{root}/{mf}"); match std::fs::read_to_string(&pth).ok().and_then(|src| syn::parse_file(&src).ok()) { Some(ff) => ff.items, None => { println!("@@ERROR {key} cannot read macro file {pth}"); continue; } } }
+                None => f.items.clone(),
+            };
+            let mut margs = o.mac_args.clone();
+            if let Some(kv) = &o.mac_for {
+                let vars = match macro_vars(&def_items, w0[1]) { Some(v) => v, None => { println!("@@ERROR {key} macro_rules! {} not found", w0[1]); continue; } };
+                match find_invocation_args(&f.items, w0[1], &vars, kv) { Some(a) => margs = a, None => { println!("@@ERROR {key} no invocation of {} with {}={}", w0[1], kv.0, kv.1); continue; } }
+            }
+            println!("@@MACARGS {key} {}", margs.join(" ;; "));
+            match expand_macro_rules(&def_items, w0[1], &margs) {
                 Ok(items) => (Some(items), &sel[1..]),
                 Err(e) => { println!("@@ERROR {key} {e}"); continue; }
             }
         } else { (None, &sel[..]) };
         let items: &[Item] = match &items_owned { Some(v) => v, None => &f.items };
         match find(items, sel_rest) {
-            Ok(Found::Fn(sig, block, vis, _attrs)) => emit_fn(key, file, sig, block, vis, &o),
+            Ok(Found::Fn(sig, block, vis, assoc)) => emit_fn(key, o.macfile.as_deref().unwrap_or(file), sig, block, vis, &o, &assoc),
             Ok(Found::Item(it)) => emit_item(key, file, it, &o),
             Err(e) => println!("@@ERROR {key} {e}"),
         }
